@@ -1,6 +1,7 @@
 from amaranth import *
 from amaranth.utils import *
 import amaranth.lib.memory as memory
+from amaranth.lib.data import ArrayLayout
 from amaranth.hdl import AlreadyElaborated
 
 from typing import Optional, Any, final
@@ -93,6 +94,8 @@ class BaseMultiportMemory(Elaboratable):
         """
 
         self.shape = Shape.cast(shape)
+        # As in amaranth.lib.memory, write granularity of array-shaped rows is counted in elements.
+        self.granularity_unit = Shape.cast(shape.elem_shape).width if isinstance(shape, ArrayLayout) else 1
         self.depth = depth
         self.init = init
         self.attrs = attrs
@@ -118,6 +121,8 @@ class BaseMultiportMemory(Elaboratable):
             raise AlreadyElaborated("Cannot add a memory port to a memory that has already been elaborated")
         if domain != "sync":
             raise ValueError("Invalid port domain: Only synchronous memory ports supported.")
+        if isinstance(granularity, int):
+            granularity *= self.granularity_unit
         return WritePort(
             memory=self,
             granularity=granularity,
